@@ -119,6 +119,22 @@ def abstract_int_text():
         _PATCH_REGISTRATIONS[builtin] = patched
 
 
+def warm(*fs):
+    """history: the values were displayed and measured before the operation under test - every memoised view
+    (terminal string, plain text, length, run boundaries) is filled in.  Plain strs are left alone."""
+    for f in fs:
+        with NoTracing():
+            is_fmt = type(f).__name__ == "FmtStr"
+        if is_fmt:
+            str(f), f.s, len(f)
+            try:
+                f.divides
+            except AttributeError:
+                pass
+            for c in f.chunks:
+                c.color_str
+
+
 def observe(r):
     """(call under tracing) the memoised views of a result: len(r) and r.s"""
     return len(r), r.s
@@ -184,3 +200,70 @@ def pick(cases, s1, s2):
 
 def pick_concrete(cases, s1, s2):
     return cases[s1 * group_size(len(cases)) + s2]
+
+
+# ---- what a FmtStr PRINTS as vs what its runs say (SegStr domain) ---------------------------------
+def render_term(f, out, p):
+    """(call under NoTracing; `out` = str(f) obtained under tracing) z3: the terminal string draws exactly len(f)
+    characters, the p-th one being f's p-th character in f's displayed formatting, contains nothing but text and
+    supported SGR sequences and ends in the default graphic state.  Catches memoised strings that no longer describe
+    the runs."""
+    from chx.common import sgr_interpret
+    from chx.domains.segstr import _lit
+    if isinstance(out, SegStr):
+        segs = out._segs
+    elif isinstance(out, str) and type(out) is str:
+        segs = _lit(out)
+    else:
+        return z3.BoolVal(False)
+    p = zint(p)
+    st = {}
+    draws = []          # (kind, payload, length term, att id)
+    buf = ""
+
+    def flush():
+        nonlocal buf, st
+        r = sgr_interpret(buf, st)
+        buf = ""
+        if r is None:
+            return False
+        cs, st = r
+        for c, d in cs:
+            draws.append(("lit", ord(c), z3.IntVal(1), att_id(d)))
+        return True
+
+    for src, lo, hi in segs:
+        if isinstance(src, tuple):
+            lo_c, hi_c = z3.simplify(lo), z3.simplify(hi)
+            if not (z3.is_int_value(lo_c) and z3.is_int_value(hi_c)):
+                return z3.BoolVal(False)
+            buf += src[1][lo_c.as_long():hi_c.as_long()]
+        else:
+            if not flush():
+                return z3.BoolVal(False)
+            if src == SPACE_SRC:
+                draws.append(("sp", None, hi - lo, att_id(st)))
+            else:
+                draws.append(("src", (src, lo), hi - lo, att_id(st)))
+    if not flush() or st != {}:
+        return z3.BoolVal(False)
+    a = z3.IntVal(OUT)
+    b = z3.IntVal(OUT)
+    t = z3.IntVal(OUT)
+    off = z3.IntVal(0)
+    conds = []
+    for kind, payload, ln, aid in draws:
+        if kind == "lit":
+            aa, bb = z3.IntVal(LIT), z3.IntVal(payload)
+        elif kind == "sp":
+            aa, bb = z3.IntVal(LIT), z3.IntVal(32)
+        else:
+            aa, bb = z3.IntVal(payload[0]), payload[1] + (p - off)
+        conds.append((z3.And(p >= off, p < off + ln), aa, bb, aid))
+        off = off + ln
+    for c, aa, bb, aid in reversed(conds):
+        a = z3.If(c, aa, a)
+        b = z3.If(c, bb, b)
+        t = z3.If(c, z3.IntVal(aid), t)
+    fa, fb, ft, flen = flat_at(f, p)
+    return z3.And(off == flen, z3.Implies(z3.And(p >= 0, p < flen), z3.And(a == fa, b == fb, t == ft)))
